@@ -33,7 +33,9 @@ META = {
                   'canonicalisation. reflect/runtime panics are modelled as classes. replaceFunc failure branches (function or '
                   'placeholder smaller than the jump, already patched) are in the model and the theorems but cannot be provoked '
                   'through the public API on amd64, so correspondence does not exercise them. By-name patches have no target type: no '
-                  'signature check exists or is claimed there.',
+                  'signature check exists or is claimed there. Known deviations on the unchanged code (KNOWN_FINDINGS): method values as targets are '
+                  'unchecked (C13-K1), string/reflect panics carry no typed cause (C13-K2), the walk stops at *IllegalParam (C13-K3), '
+                  'empty first Returns() (F27-c13) and first When() (C04-K1) are accepted.',
 }
 
 T = Z.TYPES
@@ -757,8 +759,8 @@ def oracle_seq(op, tag, f, rejected):
             return (f'probe ran {len(trail)} of {len(expect)} calls', None)
         for i, (e, got) in enumerate(zip(expect, trail)):
             if e == 'R' and not got.startswith('rej:'):
-                return (f'call {i} of the sequence (`{steps[i] if i < len(steps) else "?"}`) is a configuration mistake that was rejected the '
-                        f'first time but is accepted now: {f.get("trail")}', 'accepted:retry')
+                return (f'call {i} of the sequence (`{steps[i] if i < len(steps) else "?"}`) is a configuration mistake (or a retry of one) but was '
+                        f'accepted: {f.get("trail")}', 'accepted:retry')
         mistake = 'retry' if expect[-1] == 'R' else 'accept'
     else:
         mistake = tag[7:] if tag.startswith('second:') else tag
